@@ -388,8 +388,7 @@ class Machine(object):
             return x, None
         if name in ("and", "or"):
             t = val(op[2])
-            if int(x) < 0 or ival(op[2]) < 0:
-                return "skip", None
+            # (two's complement semantics for negative operands, as for Python ints, on every back-end)
             return (x & t) if name == "and" else (x | t), None
         if name in ("lshift", "ilshift") and int(x).bit_length() + op[2][1] > 30000:
             return "skip", None
@@ -461,7 +460,8 @@ class Machine(object):
         if name == "from_bytes":
             b = data(op[2][0], op[2][1])
             if op[4]:
-                b = bytearray(b)
+                # every documented buffer type (chosen by the data seed so that old cases keep their meaning)
+                b = [bytearray(b), memoryview(b), memoryview(bytearray(b"\xa5" + b))[1:]][op[2][0] % 3]
             r = cls.from_bytes(b, op[3])
             regs[a] = r
             return r, None
